@@ -175,6 +175,19 @@ func handleOpen(h *Handler, iq openIQ, e xmlstream.Encoder) error {
 		}))
 		return err
 	}
+	// A session id that is in use cannot be opened a second time: accepting
+	// the request would replace the live stream in the routing table and cut
+	// its reader off from the rest of its data.
+	h.mu.Lock()
+	_, inUse := h.streams[iq.Open.SID]
+	h.mu.Unlock()
+	if inUse {
+		_, err := xmlstream.Copy(e, iq.Error(stanza.Error{
+			Type:      stanza.Cancel,
+			Condition: stanza.Conflict,
+		}))
+		return err
+	}
 	_, err := xmlstream.Copy(e, iq.Result(nil))
 	if err != nil {
 		return err
